@@ -4,7 +4,7 @@ and prints the table for DESIGN.md Appendix J."""
 import glob, json, os, re
 ROOT = os.path.dirname(os.path.dirname(os.path.abspath(__file__)))
 rows = []
-for d in sorted(glob.glob(os.path.join(ROOT, "seeded", "C*-[AB]"))):
+for d in sorted(glob.glob(os.path.join(ROOT, "seeded", "C*-[A-D]"))):
     sid = os.path.basename(d)
     prop = sid.split("-")[0]
     am = json.load(open(os.path.join(d, "agent_meta.json"))) if os.path.exists(os.path.join(d, "agent_meta.json")) else {}
